@@ -12,7 +12,16 @@
     through the range variable" (go2lean_own.go) are left folds over
     `l.zipIdx` whose step replaces element `i`; they compute `l.map G`;
   * the conversions between the records of Model/Merge.lean (which the
-    translation is mapped onto) and those of Model/Calc.lean.
+    translation is mapped onto) and those of Model/Calc.lean;
+  * the write-back loops over two list levels (section "write-back loops":
+    `foldl_cursor_acc`, `foldl_cursor_via`, `foldl_fill`, `foldl_shadow`,
+    `foldl_inner_cursor`) and the search loop with a found pointer
+    (`forList_search`), generic; with them `Clone_eq`, `Negate_eq`, `Merge_eq`
+    (regenerated = Model/Merge.lean for summaries of any shape) and the closed
+    forms `round_eq`, `calcBase_eq`, `calcFinalSum_eq`, `rateTotalFor_eq` over
+    ANY reading of the primitives; their faithful reading is `Merge.calc*`
+    (`Calculate_body_faithful`), their `calcOps o` reading is in
+    Proofs/TaxTotalsCalc.lean.
 -/
 import GoblVerif.Generated.TaxTotalsSrc
 import GoblVerif.Proofs.GoSemList
